@@ -619,6 +619,19 @@ func (fv *FuncVerifier) allocSet(st *State, rs *Sort) Term {
 }
 
 func (fv *FuncVerifier) evalBinary(e *ast.BinaryExpr, st *State) Term {
+	if e.Op == token.EQL || e.Op == token.NEQ {
+		// f == nil / f != nil for a function value (not modelled): an arbitrary boolean
+		for _, pair := range [][2]ast.Expr{{e.X, e.Y}, {e.Y, e.X}} {
+			if id, ok := ast.Unparen(pair[1]).(*ast.Ident); ok && id.Name == "nil" {
+				if t := fv.typeOf(pair[0]); t != nil {
+					if _, isFn := t.Underlying().(*types.Signature); isFn {
+						fv.u.note("nil test of a function value is an arbitrary boolean")
+						return fv.u.freshConst("fnnil", sortBool)
+					}
+				}
+			}
+		}
+	}
 	switch e.Op {
 	case token.LAND, token.LOR:
 		a := fv.evalCond(e.X, st)
